@@ -49,3 +49,4 @@
 ;; ghost lastRoundHeight Int
 ;; ghost lastCommitHeight Int
 ;; ghost recvd (Array Int Bool)
+;; ghost disposed (Array Int Bool)
